@@ -39,7 +39,7 @@ def random_items(seed, n):
 def run(ctx):
     ctx.mc("text", MODULE, "MC_Linkify.cfg", overrides={"MaxFree": ctx.pick(1, 2)}, required_actions=["Extend"])
     ov = ctx.pick({"Level": 1, "MaxFree": 2, "Perms": "{1}", "Extras": "{0}"},
-                  {"Level": 2, "MaxFree": 3, "Perms": "{1, 2, 3}", "Extras": "{0, 1, 2}"})
+                  {"Level": 2, "MaxFree": 3, "Perms": "{1, 3}", "Extras": "{0, 2}"})
     states = ctx.gen_states("text", MODULE, "Gen_Linkify.cfg", overrides=ov)
     paths, rel_items = td.paths_from_states(states)
     rel_traces = td.record(MODULE, rel_items)
@@ -49,7 +49,7 @@ def run(ctx):
     traces = td.record(MODULE, items)
     td.validate_calls(ctx, MODULE, "Trace_Linkify", "Trace_Linkify.cfg", traces)
     ctx.cov["rule"] = ("texts: prefix x 7 protocols x 5 hosts/fillers (lengths 17-34) x 9 middles x 5-8 tails, and every text of <= "
-                       "%d free tokens, under shorten x require_protocol (quick) x 3 permitted-protocol sets x 3 extra_params forms "
+                       "%d free tokens, under shorten x require_protocol (quick) x 2 permitted-protocol sets x 2 extra_params forms "
                        "(thorough); plus seeded random texts of <= 14 fragments; every output judged by TLC" % ov["MaxFree"])
     ctx.cov["trusted_base"] += ["harness/text_driver.py adapters (option marshalling)"]
 
